@@ -581,11 +581,11 @@ fn stress_many_part() -> CustomPart {
     CustomPart {
         name: "stress_many",
         run: Box::new(|cfg, findings, stats| {
-            let rounds = cfg.cases(10, 200);
+            let rounds = cfg.cases(30, 400);
             let per = 1200usize;
             for r in 0..rounds {
-                // embedding keys in 3 rounds out of 5 (the class with its own slot allocator)
-                let class: u8 = [1, 1, 0, 1, 3][r as usize % 5];
+                // embedding keys in 4 rounds out of 6 (the class with its own slot allocator)
+                let class: u8 = [1, 1, 0, 1, 3, 1][r as usize % 6];
                 let threads = 4 + (r as usize % 5);
                 let store = TensorStore::new();
                 let barrier = Arc::new(std::sync::Barrier::new(threads));
@@ -670,7 +670,7 @@ fn main() {
     main_for(PropDef {
         id: "C11",
         level: "exploration",
-        rule: "lin: 2..5 (8) scripted threads of 1..5 put/get/delete/exists/scan ops on 1..3 contended keys of one key class (plain, emb: with a 384-dim vector whose every component and a sibling scalar carry the writer's tag, node:, table:, _cache:), every written value unique, plus a generated schedule; non-trivial = two operations on one key overlap in time and one is a write. durable: the same with put_durable/delete_durable and the store.durable.logged yield point; non-trivial = two overlapping durable writes to one key. stress: real threads on one key. stress_many: 4-8 real threads each writing 1200 distinct keys of one class (first puts, overwrites, deletes), sequential read-back afterwards. scan_seq: one thread, 1-9 keys over an alphabet of ASCII and multi-byte characters (incl. those whose last UTF-8 byte is 0x7F / 0xBF), 1-5 prefixes cut from keys or free-standing; non-trivial = a prefix ending in such a byte with a greater non-matching key stored. distinct = distinct generated case",
+        rule: "lin: 2..5 (8) scripted threads of 1..5 put/get/delete/exists/scan ops on 1..3 contended keys of one key class (plain, emb: with a 384-dim vector whose every component and a sibling scalar carry the writer's tag, node:, table:, _cache:), every written value unique, plus a generated schedule; non-trivial = two operations on one key overlap in time and one is a write. durable: the same with put_durable/delete_durable and the store.durable.logged yield point; non-trivial = two overlapping durable writes to one key. stress: real threads on one key. stress_many: 30 rounds (quick) of 4-8 real threads each writing 1200 distinct keys of one class (first puts, overwrites, deletes), sequential read-back afterwards. scan_seq: one thread, 1-9 keys over an alphabet of ASCII and multi-byte characters (incl. those whose last UTF-8 byte is 0x7F / 0xBF), 1-5 prefixes cut from keys or free-standing; non-trivial = a prefix ending in such a byte with a greater non-matching key stored. distinct = distinct generated case",
         assumptions: vec![
             "the scheduler owns the interleaving at the store.emb.* / store.durable.logged hooks and at operation boundaries only; other windows are reached only by the probabilistic stress part",
             "embedding-class values carry a slab-dimension vector, a vector of another dimension (kept in metadata only) or none, as a function of the write's tag; what is read back must be exactly one write's value",
